@@ -45,6 +45,7 @@ def gen_graph(rng, n_ns=2, n_nodes=6, hostile=True, with_values=True, dangling=T
     r_twin = rng.random()
     if n_ns >= 2 and (slash_twin if slash_twin is not None else r_twin < 0.2):      # two namespaces whose URIs differ only in a final slash (URIs are opaque: they are different namespaces)
         g.uris[1] = g.uris[0][:-1] if g.uris[0].endswith("/") else g.uris[0] + "/"
+        if n_ns >= 3: g.uris[2] = g.uris[0].swapcase()          # ... and a third that differs in letter case only
     # base namespace nodes (always defined in the base document)
     for t, ident, cls, name in BASE_TYPES:
         k = (UA, t, ident)
